@@ -2,7 +2,7 @@
 import numpy as np
 from scipy.constants import g, pi
 
-from wavespectra.core.utils import R2D
+from wavespectra.core.utils import R2D, angle
 
 
 def mom1(spectrum, dir, theta=90.0):
@@ -18,7 +18,7 @@ def mom1(spectrum, dir, theta=90.0):
         - mcos (float): Cosine component of the 1st directional moment.
 
     """
-    dd = dir[1] - dir[0]
+    dd = angle(dir[1], dir[0])
     cp = np.cos(np.radians(180 + theta - dir))
     sp = np.sin(np.radians(180 + theta - dir))
     msin = (dd * spectrum * sp).sum(axis=1)
@@ -58,7 +58,7 @@ def hs(spectrum, freq, dir=None, tail=True):
     """
     df = abs(freq[1:] - freq[:-1])
     if dir is not None and len(dir) > 1:
-        ddir = abs(dir[1] - dir[0])
+        ddir = angle(dir[1], dir[0])
         E = ddir * spectrum.sum(1)
     else:
         E = np.squeeze(spectrum)
